@@ -49,4 +49,36 @@ def stepLine (s : State) (line : String) : State × List String :=
       (s', [s!"{o} | {fmtState s'}"])
   | _ => (s, ["bad-line"])
 
-def main : IO Unit := runDriver NeoFS.Balance.init stepLine
+/-- driver state: the Balance model state and (glue, modelled by C06) Netmap's epoch counter, needed only for the
+`nmtick` operation: Netmap.newEpoch(e) FAULTs unless Alphabet-witnessed and `e` exceeds its current epoch, otherwise
+it calls `newEpoch(e)` on the subscribed Balance contract in the same transaction -/
+structure DState where
+  s : State
+  nmEpoch : Int
+
+def fmtOut (s' : State) (out : Option (Option Bool × List Event)) : String :=
+  let o := match out with
+    | none => "FAULT"
+    | some (r, ev) =>
+      let rs := match r with | none => "null" | some true => "true" | some false => "false"
+      s!"HALT ret={rs} ev=[{joinWith ";" (ev.map evStr)}]"
+  s!"{o} | {fmtState s'}"
+
+def stepLineD (d : DState) (line : String) : DState × List String :=
+  match words line with
+  | "case" :: _ => (⟨NeoFS.Balance.init, 0⟩, [line.trimAscii.toString])
+  | ["op", sig, caller, "nmtick", e] =>
+    match parseInt? e with
+    | none => (d, ["bad-op"])
+    | some e =>
+      let env := parseEnv sig caller
+      if env.alphabet && decide (d.nmEpoch < e) then
+        let (s', out) := invoke d.s env (.newEpoch e)
+        match out with
+        | none => (d, [fmtOut d.s none])
+        | some _ => (⟨s', e⟩, [fmtOut s' out])
+      else (d, [fmtOut d.s none])
+  | _ =>
+    let (s', outs) := stepLine d.s line
+    (⟨s', d.nmEpoch⟩, outs)
+def main : IO Unit := runDriver (⟨NeoFS.Balance.init, 0⟩ : DState) stepLineD
